@@ -188,12 +188,10 @@ func specs(quick bool) []yangval.Spec {
 				lat := [][2]string{{"min", "0"}, {"0", "10"}, {"2", "8"}, {"5", "5"}, {"12", "20"}, {"100", "max"}}
 				for i := range lat {
 					for j := i + 1; j < len(lat); j++ {
-						if lat[i][1] == "0" && lat[j][0] == "0" {
-							continue
-						}
 						s := base
 						s.Ranges = [][2]string{lat[i], lat[j]}
-						if s.Ranges[0][1] >= s.Ranges[1][0] && len(s.Ranges[0][1]) == len(s.Ranges[1][0]) {
+						// parts must be ascending and disjoint
+						if s.Bound(lat[i][1]).Cmp(s.Bound(lat[j][0])) >= 0 || s.Bound(lat[i][0]).Cmp(s.Bound(lat[i][1])) > 0 {
 							continue
 						}
 						out = append(out, s)
